@@ -38,6 +38,7 @@ fn finish(mut ex: Exec, v: Option<Violation>) -> Outcome {
     let mut t = ex.stats.trace;
     if let Some(v) = &violation {
         t.add_str(&v.oracle);
+        t.add_str(&v.detail);
     }
     Outcome {
         violation,
